@@ -13,6 +13,8 @@ import BroodModel.Dump
 import BroodModel.Query
 import BroodModel.Spec
 import BroodModel.Serde
+import BroodModel.Sched
+import BroodModel.Generated.Tables
 
 open Brood
 
@@ -53,6 +55,31 @@ def parseResViews (s : String) : Option (List (Nat × Bool)) :=
     let m := t.endsWith "m"
     if !(m || t.endsWith "r") then none else
     ((t.dropEnd 1).toString.toNat?).map (fun p => (p, m)))
+
+/-- `S:views:filter:res:entry` -/
+def parseTask (s : String) : Option Task :=
+  match s.splitOn ":" with
+  | [_kind, vS, fS, rS, eS] => do
+    let vs ← parseViews vS
+    let f ← parseFilter fS
+    let rs ← parseResViews rS
+    let es ← parseViews eS
+    some ⟨vs, f, es, rs⟩
+  | _ => none
+
+def groupsStr (g : List (List Nat)) : String :=
+  if g.isEmpty then "-" else
+  String.intercalate "/" (g.map (fun p => String.intercalate "." ((sortNats p).map toString)))
+
+/-- Model answer for a `sched` op: static stages and run-time phases, as groups of task indices. -/
+def schedAnswer (n nres : Nat) (masks : List Mask) (tasks : List Task) : String :=
+  let sts := stages Generated.verifierTable Generated.mergerTable tasks
+  let sizes := sts.map List.length
+  let offsets := sizes.foldl (fun (acc : List Nat × Nat) k => (acc.1 ++ [acc.2], acc.2 + k)) ([], 0)
+  let stageGroups := (List.zip offsets.1 sizes).map (fun p => (List.range p.2).map (p.1 + ·))
+  let ph := phases Generated.claimTryMerge n nres masks sts
+  let phaseGroups := (ph.map (fun p => p.map (fun q => offsets.1.getD q.1 0 + q.2))).filter (fun p => !p.isEmpty)
+  s!"ok stages={groupsStr stageGroups} phases={groupsStr phaseGroups}"
 
 def St.getW (st : St) (i : Nat) : Option World := (st.worlds.getD i none)
 
@@ -210,6 +237,10 @@ def runOp (st : St) (wi : Nat) (name : String) (args : List String) : St × Stri
     | none => bad
   | "len", [] =>
     withW fun w => (st, s!"ok len={w.len} empty={if w.isEmpty then 1 else 0}")
+  | "sched", [descS, _e, _scripts] =>
+    match (descS.splitOn "|").mapM parseTask with
+    | some tasks => withW fun w => (st, schedAnswer st.n k.res.length (w.archs.map (·.mask)) tasks)
+    | none => bad
   | "res", ["set", pS, vS] =>
     match pS.toNat?, vS.toNat? with
     | some p, some v =>
